@@ -1,12 +1,15 @@
 package serve
 
 import (
+	"bufio"
 	"bytes"
 	"compress/gzip"
 	"compress/zlib"
 	"context"
+	"errors"
 	"fmt"
 	"io"
+	"net"
 	"net/http"
 	"net/http/httptest"
 	"path"
@@ -107,6 +110,18 @@ func runActs(as []Act, req *restful.Request, w http.ResponseWriter) {
 		switch a.K {
 		case "w":
 			w.Write([]byte(a.B))
+		case "ws":
+			// io.WriteString on the writer the stage was handed, underneath the restful.Response if there is
+			// one: writers that offer a WriteString fast path must treat it like Write
+			io.WriteString(rawWriter(w), a.B)
+		case "hj":
+			// the handler takes the connection over (websocket upgrade); our connection is a pipe end that
+			// is closed at once, the recorder keeps recording
+			if h, ok := w.(http.Hijacker); ok {
+				if conn, _, err := h.Hijack(); err == nil && conn != nil {
+					conn.Close()
+				}
+			}
 		case "wh":
 			w.WriteHeader(a.N)
 		case "ah":
@@ -116,27 +131,71 @@ func runActs(as []Act, req *restful.Request, w http.ResponseWriter) {
 				req.SetAttribute(a.B, a.V)
 			}
 		case "panic":
-			panic(a.B)
+			panic(panicValue(a.B))
 		}
 	}
+}
+
+// rawWriter is the http.ResponseWriter underneath a *restful.Response (the writer itself otherwise).
+func rawWriter(w http.ResponseWriter) http.ResponseWriter {
+	if r, ok := w.(*restful.Response); ok {
+		return r.ResponseWriter
+	}
+	return w
+}
+
+// AbortText and the "error: " prefix select panic VALUES that are not strings: the sentinel
+// http.ErrAbortHandler and an ordinary error value. The model sees the text fmt.Sprint gives.
+var AbortText = http.ErrAbortHandler.Error()
+
+func panicValue(text string) interface{} {
+	switch {
+	case text == AbortText:
+		return http.ErrAbortHandler
+	case strings.HasPrefix(text, "error: "):
+		return errors.New(text)
+	}
+	return text
+}
+
+// hijackRec is a recorder whose connection can be taken over.
+type hijackRec struct {
+	*httptest.ResponseRecorder
+}
+
+func (h *hijackRec) Hijack() (net.Conn, *bufio.ReadWriter, error) {
+	a, b := net.Pipe()
+	b.Close()
+	return a, bufio.NewReadWriter(bufio.NewReader(a), bufio.NewWriter(a)), nil
 }
 
 func mkFilter(f Filter, stage string) restful.FilterFunction {
 	switch f.Kind {
 	case "middle":
+		// the adapter is created ONCE per registered filter, as applications do
+		// (c.Filter(restful.HttpMiddlewareHandlerToFilter(mw))); the middleware finds the restful.Request of
+		// the request it is serving in the context
+		mw := func(next http.Handler) http.Handler {
+			return http.HandlerFunc(func(rw http.ResponseWriter, r *http.Request) {
+				req, _ := r.Context().Value(mwReqKey{}).(*restful.Request)
+				if g, ok := r.Context().Value(gateKey{}).(*Gate); ok && strings.HasPrefix(stage, "cf") {
+					if first, _ := r.Context().Value(gateFirstKey{}).(string); first == stage {
+						g.Wait() // inside the net/http middleware, before it calls next
+					}
+				}
+				logStage(req, r, rw, stage, false)
+				runActs(f.Pre, nil, rw)
+				// a derived request, as real middlewares do (r.WithContext): the adapter must carry
+				// attributes and parameters over to it
+				next.ServeHTTP(&tagWriter{inner: rw, id: f.ID}, r.WithContext(context.WithValue(r.Context(), mwKey{}, f.ID)))
+				logStage(req, r, rw, stage, true)
+				runActs(f.Post, nil, rw)
+			})
+		}
+		adapter := restful.HttpMiddlewareHandlerToFilter(mw)
 		return func(req *restful.Request, resp *restful.Response, chain *restful.FilterChain) {
-			mw := func(next http.Handler) http.Handler {
-				return http.HandlerFunc(func(rw http.ResponseWriter, r *http.Request) {
-					logStage(req, r, rw, stage, false)
-					runActs(f.Pre, nil, rw)
-					// a derived request, as real middlewares do (r.WithContext): the adapter must carry
-					// attributes and parameters over to it
-					next.ServeHTTP(&tagWriter{inner: rw, id: f.ID}, r.WithContext(context.WithValue(r.Context(), mwKey{}, f.ID)))
-					logStage(req, r, rw, stage, true)
-					runActs(f.Post, nil, rw)
-				})
-			}
-			restful.HttpMiddlewareHandlerToFilter(mw)(req, resp, chain)
+			req.Request = req.Request.WithContext(context.WithValue(req.Request.Context(), mwReqKey{}, req))
+			adapter(req, resp, chain)
 		}
 	default:
 		return func(req *restful.Request, resp *restful.Response, chain *restful.FilterChain) {
@@ -188,6 +247,7 @@ func (g *Gate) Wait() {
 	}
 }
 
+type mwReqKey struct{}
 type gateKey struct{}
 type gateFirstKey struct{}
 
@@ -205,8 +265,21 @@ func Build(cfg *Cfg) (c *restful.Container, err error) {
 	if cfg.Routing.Router == "jsr" {
 		c.Router(restful.RouterJSR311{})
 	}
-	c.EnableContentEncoding(cfg.Enc)
-	c.DoNotRecover(!cfg.Recover)
+	if cfg.Late {
+		// the switches are set the other way round first and to their configured values after
+		// everything is registered: what a registration remembers of them must not matter
+		c.EnableContentEncoding(!cfg.Enc)
+		c.DoNotRecover(cfg.Recover)
+		defer func() {
+			if c != nil {
+				c.EnableContentEncoding(cfg.Enc)
+				c.DoNotRecover(!cfg.Recover)
+			}
+		}()
+	} else {
+		c.EnableContentEncoding(cfg.Enc)
+		c.DoNotRecover(!cfg.Recover)
+	}
 	if cfg.HasRS {
 		rs := cfg.RScript
 		c.RecoverHandler(func(v interface{}, w http.ResponseWriter) {
@@ -272,6 +345,29 @@ func Build(cfg *Cfg) (c *restful.Container, err error) {
 	})
 	c.Handle(PlainPath, plain)
 	c.HandleWithFilter(PlainFPath, plain)
+	return c, nil
+}
+
+// BuildFor is Build for a history: with cfg.Late the last container filter and the last filter of every
+// WebService are registered only after every request of the history has been served once (warm-up
+// traffic whose answers are not looked at) — whatever the container composed or cached while serving
+// must follow the registrations that come later.
+func BuildFor(cfg *Cfg, reqs []SReq) (*restful.Container, error) {
+	if !cfg.Late || len(cfg.CF) == 0 {
+		return Build(cfg)
+	}
+	early := *cfg
+	early.CF = cfg.CF[:len(cfg.CF)-1]
+	c, err := Build(&early)
+	if err != nil {
+		return nil, err
+	}
+	led := Install(cfg.Provider)
+	for _, r := range reqs {
+		serveImpl(c, &early, r, led, false, nil)
+	}
+	last := cfg.CF[len(cfg.CF)-1]
+	c.Filter(mkFilter(last, "cf"+strconv.Itoa(last.ID)))
 	return c, nil
 }
 
@@ -403,7 +499,7 @@ func serveImpl(c *restful.Container, cfg *Cfg, r SReq, led *Ledger, sequential b
 		hr.Header.Set("X-Verif-Cond-Panic", r.CondPanic)
 	}
 	ctx := context.WithValue(context.Background(), ctxKey{}, t)
-	if gate != nil && len(cfg.CF) > 0 && cfg.CF[0].Kind != "middle" {
+	if gate != nil && len(cfg.CF) > 0 {
 		ctx = context.WithValue(context.WithValue(ctx, gateKey{}, gate), gateFirstKey{}, "cf"+strconv.Itoa(cfg.CF[0].ID))
 	}
 	hr = hr.WithContext(ctx)
@@ -420,7 +516,7 @@ func serveImpl(c *restful.Container, cfg *Cfg, r SReq, led *Ledger, sequential b
 				res.Escaped = &s
 			}
 		}()
-		var w http.ResponseWriter = rec
+		var w http.ResponseWriter = &hijackRec{rec}
 		if sequential && failAfter >= 0 {
 			w = &failWriter{ResponseWriter: rec, left: failAfter}
 		}
